@@ -7,7 +7,7 @@ import asyncio
 from .fam_common import Bench
 
 
-def run_scenario(scn: dict, *, eager: bool = False, uv: bool = False) -> dict:
+def run_scenario(scn: dict, *, retry: bool = False, eager: bool = False, uv: bool = False) -> dict:
     from .replay import ensure_repo_on_path
     ensure_repo_on_path()
     import anyio
@@ -104,4 +104,4 @@ def run_scenario(scn: dict, *, eager: bool = False, uv: bool = False) -> dict:
                 else:
                     emit("rel", "rel", "ok")
 
-    return b.run(setup, client, eager=eager, uv=uv)
+    return b.run(setup, client, eager=eager, uv=uv, retry=retry)
